@@ -8,6 +8,11 @@ everything that is not TCP or UDP over IPv4 / IPv6 never reaches a session.
                           payload come out; the trailer is EXCLUDED (dpkt cuts at `ip.len`); `ip.p` and the transport bytes handed
                           to the checksum functions are the sender's protocol number and segment.  MF is ignored by dpkt: a first
                           fragment is dissected like a whole datagram (that is what the statement says, for either value of `mf`).
+* `dissect_build_v6`      the same for IPv6 with any chain of extension headers whose dpkt class reads them back (`ExtOk`;
+                          `extOk_of_WF`: routing, fragment (offset 0) and authentication headers laid out as in RFC 8200 /
+                          4302 — hop-by-hop / destination options headers are covered by the correspondence only), the
+                          trailer is excluded (dpkt cuts at the payload length), EXCEPT chains that start with a fragment
+                          header and end with another kind: dpkt raises AttributeError there (`Ex.attribute_aborts`).
 * `dissect_total`         for ALL byte strings: a value or one of six exception kinds; each kind is inhabited
                           (`Ex.*`: the shortest inputs found, replayed on the real library by harness/ib_ingest.py).
 * `short_frame_aborts`, `later_fragment_other`, `unknown_ethertype_other`
@@ -55,6 +60,72 @@ theorem dissect_build_v4 (f : Frame) (h : V4) (hn : f.net = .v4 h) (w : f.WF) :
     have := udp_encode_length u
     simp only [Upper.proto, Upper.encode, transportOf, udpView_encode u wu, this]
     simp
+
+/-- IPv6 with ANY chain of extension headers that dpkt's header classes read back (`ExtOk`: proved below for routing,
+    fragment and authentication headers from their RFC well-formedness): the sender's fields come out, the trailer is
+    excluded (dpkt cuts at the payload length) — PROVIDED the chain does not start with a fragment header and end with
+    another kind (then dpkt raises AttributeError: `Ex.attribute_aborts`). -/
+theorem dissect_build_v6 (f : Frame) (h : V6) (hn : f.net = .v6 h) (w : f.WF) (hx : ∀ e ∈ h.exts, ExtOk e)
+    (hq : ¬ ((encChain h.exts f.upper.proto f.upper.encode).1 = 44 ∧ lastFrag h.exts false = false)) :
+    dissect f.encode =
+      .ok (.ip ⟨true, f.srcMac, f.dstMac, h.src, h.dst, f.upper.proto, f.upper.encode, transportOf f.upper⟩) := by
+  obtain ⟨hd, hs, wu, wn⟩ := w
+  rw [hn] at wn
+  obtain ⟨h1, h2, _, _, _, hb0, hb⟩ : h.WF (encChain h.exts f.upper.proto f.upper.encode).2.length := wn
+  generalize hnb : encChain h.exts f.upper.proto f.upper.encode = nb at hb0 hb hq
+  have hnlt : nb.1 < 256 := by rw [← hnb]; exact encChain_fst_lt _ _ _ (upper_proto_lt f.upper)
+  obtain ⟨fxlen, fxnxt, fxbody, fxsrc, fxdst⟩ := v6_facts h nb.1 nb.2 f.trailer h1 h2 hnlt hb0 hb
+  generalize hD : h.fixed nb.1 nb.2.length ++ (h.src ++ (h.dst ++ nb.2)) ++ f.trailer = D at fxlen fxnxt fxbody fxsrc fxdst
+  have henc : f.encode = f.dstMac ++ (f.srcMac ++ ((if true then [0x86, 0xdd] else [0x08, 0x00]) ++ D)) := by
+    simp [Frame.encode, Frame.etherType, Frame.datagram, hn, V6.encode, hnb, ← hD]
+  have hlen : f.encode.length + 2 = (D.length + 13 + 2) + 1 := by rw [henc]; simp [hd, hs]; omega
+  have hch : ip6Chain D = .ok ⟨some f.upper.proto, f.upper.encode, 0 + h.exts.length, lastFrag h.exts false, 0⟩ := by
+    unfold ip6Chain
+    rw [fxbody, fxnxt, ← hnb]
+    exact extWalk_chain h.exts f.upper.proto f.upper.encode (upper_proto_lt _) (upper_not_ext _) hx _ 0 false
+      (by have := encChain_length_ge h.exts f.upper.proto f.upper.encode; omega)
+  have hin := ip6_upper (D.length + 13) ⟨5 + 4, 5 + 5⟩ D f.upper wu _ _ fxlen hch (by rw [fxnxt]; exact hq)
+    (by simp) (by simp)
+  have he := eth_ip _ (⟨5, 5⟩ : Dep) f.dstMac f.srcMac D true {} hd hs (by simp) (by simp) hin
+  unfold dissect dissectD
+  rw [hlen, henc]
+  have : (defaultBase + 1 : Dep) = ⟨5, 5⟩ := rfl
+  rw [this, he]
+  simp only [if_true]
+  unfold ip6View
+  simp only [hch, fxsrc, fxdst, Option.getD_some]
+  cases hu : f.upper with
+  | tcp t =>
+    rw [hu] at wu
+    simp [Upper.proto, Upper.encode, transportOf, tcpOk_encode t wu, tcpView_encode t wu]
+  | udp u =>
+    rw [hu] at wu
+    have := udp_encode_length u
+    simp [Upper.proto, Upper.encode, transportOf, udpView_encode u wu, this]
+
+/-- routing, fragment and authentication headers as the RFCs lay them out are read back by dpkt's classes -/
+theorem extOk_of_WF (e : Ext) (w : e.WF) (hno : ∀ os, e ≠ .hopByHop os ∧ e ≠ .destOpts os) : ExtOk e := by
+  cases e with
+  | hopByHop os => exact absurd rfl (hno os).1
+  | destOpts os => exact absurd rfl (hno os).2
+  | routing t s d => exact extOk_routing t s d w
+  | fragment i m => exact extOk_fragment i m
+  | ah a b c => exact extOk_ah a b c w
+
+example : ∃ (f : Frame) (h : V6), f.net = .v6 h ∧ f.WF ∧ h.exts.length = 2 ∧ (∀ e ∈ h.exts, ExtOk e) ∧
+    ¬ ((encChain h.exts f.upper.proto f.upper.encode).1 = 44 ∧ lastFrag h.exts false = false) :=
+  ⟨⟨[1, 2, 3, 4, 5, 6], [7, 8, 9, 10, 11, 12],
+    .v6 ⟨0, 5, 64, List.replicate 16 1, List.replicate 16 2, [.routing 0 0 [0, 0, 0, 0], .fragment 7 false]⟩,
+    .udp ⟨443, 50000, 0, [0x40, 1]⟩, [0, 0]⟩, _, rfl,
+   by simp [Frame.WF, Upper.WF, Udp.WF, V6.WF, Ext.WF, Upper.encode, Udp.encode, be2, be4, encChain, Ext.encode, Upper.proto],
+   rfl,
+   by
+    intro e he
+    simp only [List.mem_cons, List.mem_nil_iff, or_false] at he
+    rcases he with rfl | rfl
+    · exact extOk_routing _ _ _ (by simp [Ext.WF])
+    · exact extOk_fragment _ _,
+   by simp [encChain, Ext.proto]⟩
 
 example : ∃ f : Frame, f.WF ∧ (∃ h, f.net = .v4 h ∧ h.options ≠ [] ∧ h.mf = true) ∧ f.trailer ≠ [] :=
   ⟨⟨[1, 2, 3, 4, 5, 6], [7, 8, 9, 10, 11, 12],
